@@ -12,8 +12,11 @@ RULE = (
     "boundary pools) x one spelling drawn from the grammar (--n=v, --n v, -nv, -n v, grouped flags optionally "
     "ending in a value option, bare optional-value options, options interleaved among positionals, names/aliases, "
     "omitted command-name suffix, '--' tail with option-like positionals); each line parsed strict and lenient, "
-    "as argv and (when expressible) as quoted string. Non-trivial: the line shows at least two of the spelling "
-    "features. Distinct = distinct (format, tokens) by hash."
+    "as argv and (when expressible) as quoted string; exhaustive: for small formats (0-2 options over 8 shapes x 6 "
+    "argument shapes x with/without a command name on a base level) and 2-value pools, EVERY meaning x spelling x "
+    "interleaving the same grammar can produce, enumerated by depth-first re-execution of the generator over its "
+    "choice points (quick: a 1/12 slice of the formats chosen by the seed; thorough: all 876 formats). Non-trivial: "
+    "the line shows at least two of the spelling features. Distinct = distinct (format, tokens) by hash."
 )
 ASSUMPTIONS = [
     "a detached option value is non-empty and does not start with '-'; an empty option value cannot be spelled",
@@ -171,7 +174,53 @@ def string_vs_argv_cases(draw):
     return case
 
 
-PARTS = {"parse": check_parse}
+def _o(long, short, mode, typ, nullable=False, default=None):
+    return {"k": "opt", "long": long, "short": short, "mode": mode, "type": typ, "nullable": nullable, "default": default}
+
+
+def _a(name, kind, typ="s"):
+    return {"k": "arg", "name": name, "kind": kind, "type": typ, "nullable": False, "default": None}
+
+
+def small_formats():
+    """The bounded-exhaustive family: 0-2 options over 8 shapes x 6 argument shapes x with/without a command name."""
+    shapes = [("none", "s", True, False, None), ("none", "s", False, False, None), ("req", "s", True, False, None),
+              ("req", "i", False, False, None), ("opt", "s", True, False, "dflt"), ("opt", "i", False, True, None),
+              ("multi", "s", True, False, None), ("multi", "i", False, False, None)]
+    optsets = [[]]
+    for sh in shapes:
+        optsets.append([_o("foo", "f" if sh[2] else None, sh[0], sh[1], sh[3], sh[4])])
+    for a in shapes:
+        for b in shapes:
+            optsets.append([_o("foo", "f" if a[2] else None, a[0], a[1], a[3], a[4]),
+                            _o("bar", "b" if b[2] else None, b[0], b[1], b[3], b[4])])
+    argsets = [[], [_a("a1", "req")], [_a("a1", "opt", "i")], [_a("a1", "req"), _a("a2", "opt")],
+               [_a("a1", "req"), _a("rest", "multi")], [_a("rest", "multireq", "i")]]
+    out = []
+    for os_ in optsets:
+        for as_ in argsets:
+            out.append({"levels": [list(os_) + list(as_)]})
+            out.append({"levels": [[{"k": "name", "name": "server", "aliases": ["srv"]}] + list(os_[:1]), list(os_[1:]) + list(as_)]})
+    return out
+
+
+def shard_exhaustive(ctx, arg):
+    i, n, stride, offset, limit = arg
+    fmts = small_formats()
+    for j, fmt in enumerate(fmts):
+        if j % n != i or (j // n) % stride != offset:
+            continue
+        count = 0
+        state = {}
+        for line in gen_args.enumerate_lines(fmt, limit=limit, small_pools=True, state=state):
+            count += 1
+            case = {"fmt": fmt, "via_builder": bool(j % 2), "tokens": line["tokens"], "expect": line["expect"],
+                    "classes": line["classes"], "excluded_unspecified": line["excluded_unspecified"]}
+            check_parse(ctx, case, part="exhaustive")
+        ctx.count("c01:exhaustive-formats-complete" if state.get("complete") else "c01:exhaustive-formats-capped")
+
+
+PARTS = {"parse": check_parse, "exhaustive": lambda ctx, c: check_parse(ctx, c, part="exhaustive")}
 
 
 HYP = {"parse": (lambda ctx: gen_args.case_st(), check_parse)}
@@ -179,3 +228,11 @@ HYP = {"parse": (lambda ctx: gen_args.case_st(), check_parse)}
 def run(ctx):
     quick = ctx.tier == "quick"
     ctx.hyp_sharded("parse", 12000 if quick else 120000, salt=1)
+    # bounded-exhaustive: every spelling and interleaving the grammar can produce, for small formats with 2-value pools
+    n_formats = len(small_formats())
+    stride = 12 if quick else 1
+    ctx.parallel("shard_exhaustive", [(i, 16, stride, ctx.seed % stride, 6000 if quick else 120000) for i in range(16)])
+    ctx.exhaustive("exhaustive", ctx.classes.get("c01:exhaustive-formats-capped", 0) == 0, "all meanings x spellings x interleavings of the spelling grammar for %s of the %d small "
+                   "formats (0-2 options over 8 shapes x 6 argument shapes x with/without command name), 2-value pools"
+                   "; formats whose enumeration exceeds the per-format run cap are counted as capped (classes)"
+                   % ("1/12 (slice chosen by the seed)" if quick else "all", n_formats))
